@@ -327,7 +327,7 @@ func (v *vmCase) quiesce() (rounds int, bad string, err error) {
 func runC07(tier string, _ []string) int {
 	c := vlib.NewCtx("C07", tier, "exploration")
 	vlib.SetPortBlock(7)
-	c.SetRule("per case a fresh instance and a real client.Manager for an instrumented client type (vNode, children vChild, parent types group + vParent) registered through the public API; a PRNG history of ~15 operations (create vNode under root / group / nested group / vParent, add and remove vChild, delete and undelete vNodes and the groups holding them, mirror, move, point updates, a vNode created with an undecodable configuration that is then corrected) with 0-40 ms delays injected into the client's Run start / return and at the manager.beforeConstruct / cs.afterStop hook sites; after operations the harness forces a rescan (creating an unrelated node) and waits, in logical steps, for a scan that began afterwards; invariants: I1 never two clients of one placement at once (whole event log), I2 running set == live configured placements with children as constructed == live children (within 6 forced rescans, then stable for 2 more), I3 Manager.Stop stops every client and Run returns. distinct = (operation kinds in the history, rounds needed, number of placements)")
+	c.SetRule("per case a fresh instance and a real client.Manager for an instrumented client type (vNode, children vChild, parent types group + vParent) registered through the public API; a PRNG history of ~15 operations (create vNode under root / group / nested group / vParent, add and remove vChild, delete and undelete vNodes and the groups holding them, mirror, move, point updates, a vNode created with an undecodable configuration that is then corrected) with 0-40 ms delays injected into the client's Run start / return and at the manager.beforeConstruct / cs.afterStop hook sites; after operations the harness forces a rescan (creating an unrelated node) and waits, in logical steps, for a scan that began afterwards; invariants: I1 never two clients of one placement at once (whole event log), I2 running set == live configured placements with children as constructed == live children (within 6 forced rescans, then stable for 2 more), I3 Manager.Stop stops every client and Run returns (in a quarter of the histories Stop comes right after the last operation, during the scans and restarts it caused). distinct = (operation kinds in the history, rounds needed, number of placements)")
 	c.Assume("the instrumented client's Run returns promptly when Stop is called; a configuration that stays undecodable is not generated (the property does not say what should run for it)")
 	nHist := c.N(100, 600)
 	maxDelay := 40
@@ -388,6 +388,9 @@ func runC07(tier string, _ []string) int {
 		}
 		kinds := map[string]bool{}
 		nOps := 10 + r.Intn(12)
+		// in a quarter of the histories the manager is stopped right after the last operation, while
+		// scans, constructions and restarts caused by it may still be under way
+		stopMidway := r.Chance(0.25)
 		// always start with something to manage
 		scenario := i % 5
 		var opErr error
@@ -518,7 +521,7 @@ func runC07(tier string, _ []string) int {
 			kinds[op] = true
 			v.mon.mark("op-done " + op)
 			c.Eval(1)
-			if r.Chance(0.4) || k == nOps-1 || op == "only-client-in-group" {
+			if r.Chance(0.4) || (k == nOps-1 && !stopMidway) || op == "only-client-in-group" {
 				rounds, bad, err := v.quiesce()
 				if err != nil {
 					c.Inconclusive(err.Error())
@@ -567,12 +570,15 @@ func runC07(tier string, _ []string) int {
 				started++
 			}
 		}
-		if constructed != started {
+		if constructed != started && !stopMidway {
 			c.Violate("manager:constructed-client-never-run", fmt.Sprintf("%d clients constructed, %d run", constructed, started), v.wit(nil))
 			return
 		}
 		c.Count("clients_constructed", int64(constructed))
 		c.Count("manager_stops_checked", 1)
+		if stopMidway {
+			c.Count("manager_stops_during_activity", 1)
+		}
 		if i < 2 {
 			c.Sample(map[string]any{"ops": d.Log[:min(len(d.Log), 10)], "kinds": keysOf(kinds), "clients": constructed})
 		}
